@@ -2535,6 +2535,15 @@ class OMPLoopDirective(OMPRegionDirective):
                         f"'{self}' has a collapse={self._collapse} and the "
                         f"nested statement at depth {depth} is a "
                         f"{type(cursor).__name__} rather than a Loop.")
+                if len(cursor.parent.children) != 1:
+                    # Collapsed loops must be perfectly nested (no
+                    # intervening statements).
+                    raise GenerationError(
+                        f"OMPLoopDirective must have as many immediately "
+                        f"nested loops as the collapse clause specifies but "
+                        f"'{self}' has a collapse={self._collapse} and the "
+                        f"nested body at depth {depth} cannot be "
+                        f"collapsed.")
                 cursor = cursor.loop_body.children[0]
 
         super().validate_global_constraints()
